@@ -1247,6 +1247,43 @@ def gen_C15():
     return out
 
 
+def gen_C16():
+    """Featurizer: the value given to an unseen level, which level is dropped, what counts as a fitting row, the column order"""
+    src, tree = _parse("handlers/data/Featurizer.py")
+    cls = "Featurizer"
+    gh = _find(tree, cls, "generate_holdout_data")
+    vals = [n for n in ast.walk(gh) if isinstance(n, ast.Assign) and ast.unparse(n.targets[0]).startswith("df.loc[rows_w_inactive_fixed_effects")]
+    if len(vals) != 1:
+        raise TranslateError("generate_holdout_data: the unseen-level assignment")
+    tr = Tr(src, {"len(fe_active_fixed_effects)": "nActive"})
+    out = [lean_def("unseen_value", [("nActive", "Rat")], "Rat", "  " + tr.expr(vals[0].value))]
+    out.append(_strlist("unseen_target", [ast.unparse(vals[0].targets[0])]))
+    keep = ("inactive_fixed_effects", "fe_active_fixed_effects", "fe_inactive_fixed_effects", "rows_w_inactive_fixed_effects")
+    out.append(_strlist("holdout_steps", [ast.unparse(n).replace("\n", " ") for n in ast.walk(gh) if isinstance(n, ast.Assign)
+                                          and ast.unparse(n.targets[0]) in keep] + [ast.unparse(gh.body[-1])]))
+    pd_ = _find(tree, cls, "prepare_data")
+    keep = ("all_expanded_fixed_effects", "df_fitting", "active_fixed_effect_boolean_df", "all_active_fixed_effects", "fe_fixed_effect_filter",
+            "self.active_fixed_effects", "self.intercept_column", "self.expanded_fixed_effects", "self.complete_features", "self.active_features")
+    steps = []
+    for n in ast.walk(pd_):
+        if isinstance(n, (ast.Assign, ast.AugAssign)):
+            t = ast.unparse(n.targets[0] if isinstance(n, ast.Assign) else n.target)
+            if t in keep or t.startswith("df[self.features]"):
+                steps.append(ast.unparse(n).replace("\n", " ")[:260])
+        if isinstance(n, ast.Call) and ast.unparse(n.func) in ("active_fixed_effects.extend", "intercept_column.append"):
+            steps.append(ast.unparse(n))
+    out.append(_strlist("prepare_steps", steps))
+    out.append(_strlist("prepare_returned", [ast.unparse(pd_.body[-1])]))
+    ex = _find(tree, cls, "_expand_fixed_effects")
+    out.append(_strlist("pooling", [ast.unparse(n).replace("\n", " ") for n in ast.walk(ex) if isinstance(n, ast.If)]
+                        + [ast.unparse(n).replace("\n", " ")[:200] for n in ast.walk(ex) if isinstance(n, ast.Call) and ast.unparse(n.func) == "pd.get_dummies"]))
+    sf = _find(tree, cls, "_sort_features")
+    out.append(_strlist("sort_features", [ast.unparse(s).replace("\n", " ") for s in sf.body if not isinstance(s, ast.Expr)]))
+    out.append(_strlist("categories_for_fe", [ast.unparse(_find(tree, cls, "_get_categories_for_fe").body[-1])]))
+    out.append(_strlist("filter_to_active", [ast.unparse(_find(tree, cls, "filter_to_active_features").body[-1])]))
+    return out
+
+
 def gen_C17():
     """scalar formulas and tests of VersionedDataHandler.compute_versioned_margin_estimate (inner compute_estimated_margin)"""
     src, tree = _parse("handlers/data/VersionedData.py")
@@ -1297,7 +1334,7 @@ def gen_C17():
     return out
 
 
-GENERATORS = {"C02": gen_C02, "C03": gen_C03, "C08": gen_C08, "C09": gen_C09, "C04": gen_C04, "C05": gen_C05, "C06": gen_C06, "C07": gen_C07, "C10": gen_C10, "C12": gen_C12, "C13": gen_C13, "C14": gen_C14, "C15": gen_C15, "C17": gen_C17, "C18": gen_C18, "C19": gen_C19, "C20": gen_C20}
+GENERATORS = {"C02": gen_C02, "C03": gen_C03, "C08": gen_C08, "C09": gen_C09, "C04": gen_C04, "C05": gen_C05, "C06": gen_C06, "C07": gen_C07, "C10": gen_C10, "C12": gen_C12, "C13": gen_C13, "C14": gen_C14, "C15": gen_C15, "C16": gen_C16, "C17": gen_C17, "C18": gen_C18, "C19": gen_C19, "C20": gen_C20}
 
 EXTRA_IMPORTS = {"C02": "import ElexModel.Core.Table\n", "C13": "import ElexModel.Core.Loops\n"}
 
